@@ -162,7 +162,7 @@ func runC02(w *core.W) {
 	}
 	w.ExhaustivePart(fmt.Sprintf("all sequences of 1..%d lexemes over the 43-lexeme alphabet x {space, minimal, newline} separators", kmax))
 	r := w.RNG("tok-sampled")
-	for i, n := 0, w.Pick(40000, 400000); i < n; i++ {
+	for i, n := 0, w.Pick(120000, 1200000); i < n; i++ {
 		k := kmax + 1 + r.Intn(4)
 		toks := make([]string, k)
 		for j := range toks {
@@ -240,7 +240,7 @@ func runC02(w *core.W) {
 	// 5. grammar-directed programs, expected tree known by construction
 	cfg := gen.FullSyntax()
 	r = w.RNG("prog")
-	for i, n := 0, w.Pick(25000, 400000); i < n; i++ {
+	for i, n := 0, w.Pick(75000, 1200000); i < n; i++ {
 		t := ref.Parenthesize(cfg.Node(r, 2+r.Intn(6)))
 		f := ref.Flatten(t)
 		src := ref.JoinLexemes(f.Lex, gen.Layout(r, f, r.Intn(3)))
@@ -249,7 +249,7 @@ func runC02(w *core.W) {
 	// 5b. one line break placed right before a '.', '!.' or call '(' of a valid program:
 	// member access and calls must start on the line of their target
 	r = w.RNG("postfix-break")
-	for i, n := 0, w.Pick(20000, 300000); i < n; i++ {
+	for i, n := 0, w.Pick(60000, 900000); i < n; i++ {
 		f := ref.Flatten(ref.Parenthesize(cfg.Node(r, 2+r.Intn(5))))
 		var at []int
 		for j := range f.Lex {
@@ -267,7 +267,7 @@ func runC02(w *core.W) {
 	}
 	// 6. mutants of valid programs (near-miss inputs on the reject side)
 	r = w.RNG("prog-mut")
-	for i, n := 0, w.Pick(15000, 300000); i < n; i++ {
+	for i, n := 0, w.Pick(45000, 900000); i < n; i++ {
 		f := ref.Flatten(ref.Parenthesize(cfg.Node(r, 2+r.Intn(4))))
 		lex := append([]string(nil), f.Lex...)
 		switch r.Intn(4) {
